@@ -14,11 +14,11 @@ RULE = ('Cases: an ancestor of 1..3 contigs; substitution sites more than (k-1)/
         'in random order and orientation per sample.  The generator checks admissibility (every canonical split k-mer over '
         'the union of all sample sequences occurs at one locus, none self-complementary).  `ska align --min-freq 1` must '
         'give exactly the planted columns (each up to whole-column complement), equal lengths, names in input order.  '
-        'Routes: `ska build -k K` + `ska align x.skf` for all odd k, and `ska align <fastas>` (k=17).  Non-trivial: at least '
+        'Routes: `ska build -k K` + `ska align x.skf` for all odd k, and `ska align <fastas>` (k=17), with --threads 1/2/4/8 (10 samples with > 1 thread take the parallel build path).  Non-trivial: at least '
         'one planted site; distinct = distinct (k, sample sequences).')
 ASSUMPTIONS = ['the planted truth is the oracle; no model of ska is involved',
                'uniqueness is required over the union of samples, see DESIGN.md section 8']
-REQUIRED = {t: ['route:skf', 'route:fasta', 'sites_at_min_gap', 'sites_at_min_end', 'multi_contig', 'contigs_of_length_k_or_k+1'] for t in ('quick', 'thorough')}
+REQUIRED = {t: ['route:skf', 'route:fasta', 'sites_at_min_gap', 'sites_at_min_end', 'multi_contig', 'contigs_of_length_k_or_k+1', 'parallel_build_path'] for t in ('quick', 'thorough')}
 
 
 def builds(tier):
@@ -60,7 +60,7 @@ def admissible(ss, k):
 def gen(rng, k):
     h = (k - 1) // 2
     for _attempt in range(400):
-        ns = rng.randint(2, 10)
+        ns = rng.choice([2, 3, 4, 5, 6, 7, 8, 9, 10, 10, 10])
         ncont = rng.randint(1, 3)
         maxlen = 6 * k if k > 7 else 4 * k
         if k == 5:
@@ -121,6 +121,10 @@ def run_case(desc, ctx):
         rng.shuffle(order)
         recs = [s[j] if rng.random() < 0.5 else M.rc(s[j]) for j in order]
         files.append(G.write_fa(ctx.path('s%d.fa' % i), recs, wrap=rng.choice([0, 0, 60])))
+    threads = rng.choice([1, 1, 2, 4, 8])
+    res.see('threads', threads)
+    if ns >= 10 and threads > 1:
+        res.count('parallel_build_path')
     exp = sorted(M.canon_col(c) for c in truth)
     names_exp = ['s%d' % i for i in range(ns)]
     res.count('route:' + desc['route'])
@@ -129,7 +133,7 @@ def run_case(desc, ctx):
     for variant in (['rel', 'chk'] if desc.get('chk') else ['rel']):
         b = ctx.bins[variant]
         if desc['route'] == 'skf':
-            p = G.ska_build(ctx, ctx.path('o'), files, k, True, binary=b)
+            p = G.ska_build(ctx, ctx.path('o'), files, k, True, binary=b, extra=['--threads', threads])
             if p.returncode != 0:
                 if variant == 'chk' and 'overflow' in p.stderr:
                     res.count('chk_overflow_panics')
@@ -138,7 +142,7 @@ def run_case(desc, ctx):
                 continue
             names, seqs, pa = G.align_output(ctx, [ctx.path('o.skf'), '--min-freq', '1'], binary=b)
         else:
-            names, seqs, pa = G.align_output(ctx, files + ['--min-freq', '1'], binary=b)
+            names, seqs, pa = G.align_output(ctx, files + ['--min-freq', '1', '--threads', threads], binary=b)
         if variant == 'chk':
             res.count('chk_runs')
             if names is None and 'overflow' in pa.stderr:
